@@ -18,6 +18,7 @@ entries and its total credit equals the maximum over all n! assignments, Fractio
 list must reach the maximal total among the alternative lists, every entry must sit at the box of the
 input it grades (through groupings), and partial_credit=False must zero everything unless all are correct.
 """
+import ast
 import itertools
 import random
 from math import gcd as _gcd
@@ -25,7 +26,6 @@ import zlib
 from fractions import Fraction
 
 from harness import core
-from harness.core import qlit, zlit, listlit, strlit
 
 ID = 'C05'
 PROPS = 'Props/C05.v'
@@ -49,7 +49,7 @@ REFUTED = []
 HEADER = ('From Coq Require Import ZArith QArith List Bool Arith.\n'
           'From Verif.Lib Require Import QRound.\n'
           'From Verif.Model Require Import Result Munkres ListGrader ListGraderAgree.\n'
-          'Import ListNotations.\n')
+          'Import ListNotations.\nOpen Scope Z_scope.\n')
 CASE_TYPE = 'lg_case'
 
 EXACT = [0, 0, 0, 1, 1, 0.5, 0.25, 0.75, 0.125, 0.5]
@@ -405,25 +405,31 @@ class Case(object):
 
 
 # ------------------------------------------------------------------------------------------------
-# Coq terms
+# Coq terms (compact constructors of Model/ListGraderAgree.v; Z_scope is open in the case files, the
+# constructors' argument types select nat / positive scopes)
 # ------------------------------------------------------------------------------------------------
-def nat(n):
-    return '%d%%nat' % n
+def zl(n):
+    n = int(n)
+    return '(%d)' % n if n < 0 else '%d' % n
+
+
+def bl(b):
+    return 'true' if b else 'false'
 
 
 def gtree_term(node):
     if isinstance(node, Item):
-        return '(TItem %s)' % nat(node.gid)
-    cfg = '(mkLgCfg %s %s %s %s %s)' % (core.boollit(node.ordered), core.boollit(node.partial), core.boollit(node.sublist),
-                                        nat(len(node.subs) if node.sublist else 0),
-                                        '(' + listlit([nat(g) for g in node.grouping]) + ' : list nat)')
-    return '(TList %s %s %s)' % (nat(node.gid), cfg, listlit([gtree_term(s) for s in node.subs]))
+        return '(TItem %d)' % node.gid
+    cfg = '(cfg %s %s %s %d %s)' % (bl(node.ordered), bl(node.partial), bl(node.sublist),
+                                    len(node.subs) if node.sublist else 0,
+                                    ('[' + ';'.join('%d' % g for g in node.grouping) + ']%nat') if node.grouping else '[]')
+    return '(TList %d %s [%s])' % (node.gid, cfg, ';'.join(gtree_term(s) for s in node.subs))
 
 
 def atree_term(t):
     if t[0] == 'AItem':
-        return '(AItem %s)' % nat(t[1])
-    return '(AAlts %s)' % listlit([listlit([atree_term(x) for x in alt]) for alt in t[1]])
+        return '(AItem %d)' % t[1]
+    return '(AAlts [%s])' % ';'.join('[' + ';'.join(atree_term(x) for x in alt) + ']' for alt in t[1])
 
 
 class Universe(object):
@@ -433,21 +439,22 @@ class Universe(object):
     def z(self, s):
         if s not in self.ix:
             self.ix[s] = len(self.ix)
-        return zlit(self.ix[s])
+        return '%d' % self.ix[s]
 
 
 def ginput_term(k, uni):
     if k[0] == 'one':
-        return '(GOne %s)' % uni.z(k[1])
-    return '(GMany %s)' % listlit([uni.z(x) for x in k[1]])
+        return '(o1 %s)' % uni.z(k[1])
+    return '(om [%s])' % ';'.join(uni.z(x) for x in k[1])
 
 
-OK_TERM = {True: 'OkTrue', False: 'OkFalse', 'partial': 'OkPartial'}
+OK_FN = {True: 'eT', False: 'eF', 'partial': 'eP'}
 
 
 def entry_term(e):
     ok, grade, msg = e
-    return '(mkEntry %s %s %s)' % (OK_TERM[ok], qlit(grade), strlit(msg))
+    fr = Fraction(grade)
+    return '(%s %s %d [%s])' % (OK_FN[ok], zl(fr.numerator), fr.denominator, ';'.join('%d' % ord(ch) for ch in msg))
 
 
 def entries_ok(es):
@@ -458,21 +465,28 @@ def entries_ok(es):
 def case_term(case, inputs, status, out):
     rec = case.rec
     uni = Universe()
-    xs = listlit([uni.z(x) for x in inputs])
-    rows = []
+    xs = '[' + ';'.join(uni.z(x) for x in inputs) + ']'
+    rows, sib_names, lets = [], {}, []
     for key in rec.order:
         gid, aid, gk, skey = key
         val = rec.rows[key]
-        sib = 'None' if skey is None else '(Some %s)' % listlit(['(%s, %s)' % (nat(g), ginput_term(k, uni)) for g, k in skey])
+        if skey is None:
+            sib = 'None'
+        else:
+            if skey not in sib_names:
+                sib_names[skey] = 's%d' % len(sib_names)
+                lets.append('let %s := Some [%s] in ' % (sib_names[skey],
+                            ';'.join('sb %d %s' % (g, ginput_term(k, uni)) for g, k in skey)))
+            sib = sib_names[skey]
         o = 'None' if val is None else '(Some %s)' % entry_term(val)
-        rows.append('(%s, %s, %s, %s, %s)' % (nat(gid), nat(aid if aid is not None else 0), ginput_term(gk, uni), sib, o))
-    table = '(%s : list rec_row)' % listlit(rows)
+        rows.append('rw %d %d %s %s %s' % (gid, aid if aid is not None else 0, ginput_term(gk, uni), sib, o))
+    table = '[' + ';'.join(rows) + ']'
     if rec.perform_failed or not all(entries_ok(p) for p in rec.performs):
         performs = 'None'
     else:
-        performs = '(Some %s)' % listlit([listlit([entry_term(e) for e in p]) for p in rec.performs])
-    obs = 'None' if status != 'ret' else '(Some %s)' % listlit([entry_term(e) for e in out])
-    return '(%s, %s, (%s : list Z), %s, %s, %s)' % (gtree_term(case.top), atree_term(case.tree), xs, table, performs, obs)
+        performs = '(Some [%s])' % ';'.join('[' + ';'.join(entry_term(e) for e in p) + ']' for p in rec.performs)
+    obs = 'None' if status != 'ret' else '(Some [%s])' % ';'.join(entry_term(e) for e in out)
+    return '(%smkcase %s %s %s %s %s %s)' % (''.join(lets), gtree_term(case.top), atree_term(case.tree), xs, table, performs, obs)
 
 
 # ------------------------------------------------------------------------------------------------
@@ -708,6 +722,31 @@ def valid_groupings(m, unordered):
     return out
 
 
+def pow2(k):
+    return k >= 1 and (k & (k - 1)) == 0
+
+
+def averages_exact(node):
+    """find_optimal_order averages the entries of long-form results (sum / k): exact in binary floating point
+    only when every unordered grouped level has groups of 1, 2, 4 or 8 boxes"""
+    if isinstance(node, Item):
+        return True
+    if node.grouping and not node.ordered and not pow2(node.grouping.count(1)):
+        return False
+    return all(averages_exact(s) for s in node.subs)
+
+
+def float_exact(case):
+    """every float operation of this run is exact (then entries are compared by equality, otherwise totals within
+    1e-9): recorded subgrader grades are dyadic with small denominators and all averages are over 2^k entries"""
+    if not averages_exact(case.top):
+        return False
+    for v in case.rec.rows.values():
+        if v is not None and isinstance(v[1], (int, float)) and Fraction(v[1]).denominator > 1024:
+            return False
+    return True
+
+
 class Runner(object):
     def __init__(self, ctx, res):
         self.ctx, self.res = ctx, res
@@ -729,7 +768,7 @@ class Runner(object):
             return status, out
         if case.rec.problems:
             res.corr_errors.append(('c05-recorder', '; '.join(case.rec.problems[:3])))
-        exact_entries = case.palette_name != 'rounded'
+        exact_entries = case.palette_name != 'rounded' and float_exact(case)
         term = case_term(case, inputs, status, out)
         if exact_entries:
             self.terms_exact.append(term)
@@ -763,7 +802,7 @@ class Runner(object):
                                       ('c05_total', 'agree_total', self.terms_total, self.metas_total)):
             if not terms:
                 continue
-            shard = max(20, (len(terms) + 27) // 28)
+            shard = max(25, (len(terms) + 13) // 14)
             n, failing, errors = core.eval_agreement(tag, hdr, fn, terms, shard=shard, case_type=CASE_TYPE)
             res.programs += n
             res.corr_errors += errors
@@ -880,7 +919,7 @@ def rebuild(w):
             return Item(d['item'], d['kind'], d['sib'], d['salt'], tuple(d['palette']), d['slg'])
         return LNode(d['list'], d['ordered'], d['partial_credit'], d['sublist'], [node_of(s) for s in d['subs']], d['grouping'])
     top = node_of(w['grader'])
-    answers = eval(w['answers'], {'__builtins__': {}}, {})      # a Python literal written by this module
+    answers = ast.literal_eval(w['answers'])      # a Python literal written by this module
     build(top, answers)
     return top
 
